@@ -104,8 +104,10 @@ const (
 // (the code under test never parses it), or, with parameter emptyCpuset=1,
 // possibly the empty string (which NRI cannot convey: an empty cpuset field
 // in an update means "unchanged"; see label C05.runtime-equals-cache.empty-cpuset).
-func verifC05String(name string) string {
-	if verifParam("emptyCpuset", 0) == 1 && verifChoice(name+".empty", 2) == 1 {
+func verifC05String(name string, pinned bool) string {
+	// emptyOnlyPinned=1: only for the container that starts out pinned (the
+	// only one where an empty value differs from what the runtime has)
+	if verifParam("emptyCpuset", 0) == 1 && (pinned || verifParam("emptyOnlyPinned", 0) == 0) && verifChoice(name+".empty", 2) == 1 {
 		return ""
 	}
 	b := []byte{verifNondetUint8(name + ".b0"), verifNondetUint8(name + ".b1"), verifNondetUint8(name + ".b2")}
@@ -122,9 +124,9 @@ func verifC05Set(c *container, op int) {
 	case verifResPeriod:
 		c.SetCPUPeriod(verifNondetInt64("period"))
 	case verifResCpus:
-		c.SetCpusetCpus(verifC05String("cpus"))
+		c.SetCpusetCpus(verifC05String("cpus", c.GetID() == "C"))
 	case verifResMems:
-		c.SetCpusetMems(verifC05String("mems"))
+		c.SetCpusetMems(verifC05String("mems", c.GetID() == "C"))
 	case verifResLimit:
 		c.SetMemoryLimit(verifNondetInt64("limit"))
 	case verifResSwap:
